@@ -77,7 +77,9 @@ def generate(rng, tier):
             view["dx"], view["dy"] = None, None
     return {"mesh": m, "view": view, "direction": direction, "layers": gen_layers(rng, m["ndim"]),
             "call_mode": rng.choice([None, None, "image"]), "sched": draw_schedule_config(rng, maxT=8),
-            "knob": rng.choice([None, None, None, 1024, 16384]), "render": rng.random() < 0.012}
+            "knob": rng.choice([None, None, None, 1024, 16384]), "render": rng.random() < 0.012,
+            # an earlier (unjudged) map of another window made with the same Layer and direction objects
+            "prior": rng.random() < 0.12}
 
 
 def describe(case):
@@ -102,17 +104,44 @@ def make_sim(case, dry):
     return Sim(T=T, partition=s["partition"], policy=pol, rng=core.rng_for(s["sched_seed"], "sched"), contenders=cont, touches=touches)
 
 
-def call_map(case, dg, sim_factory, extra=None):
+def prior_call(case, dg, extra=None):
+    """The caller's earlier use of the same objects: a coarse map of another window.  Returns the state to pass on."""
+    m = case["mesh"]
+    box = m["scale"]
+    v = dict(case["view"])
+    if v["origin"] is not None:
+        v["origin"] = [o + 0.13 * box for o in v["origin"]]  # view values are in the mesh's unit
+    else:
+        v["origin"], v["origin_unit"] = [0.37 * box] * 3, m["unit"]
+    v["dx"], v["dy"], v["window_unit"] = 0.5 * box, None, m["unit"]
+    v["resolution"] = 4
+    state = {}
+    try:
+        call_map(dict(case, view=v, knob=None), dg, lambda: Sim(T=1), extra=extra, state=state)
+    except HarnessError:
+        raise
+    except Exception:
+        pass
+    return state
+
+
+def call_map(case, dg, sim_factory, extra=None, state=None):
+    """`state`: objects the caller keeps between calls (the Layer objects and the direction object)."""
     import osyris
 
-    layers = []
-    for l in case["layers"]:
-        kw = {}
-        if l.get("mode") is not None:
-            kw["mode"] = l["mode"]
-        layers.append(dg.layer(l["key"], **kw))
+    if state is not None and "layers" in state:
+        layers = state["layers"]
+    else:
+        layers = []
+        for l in case["layers"]:
+            kw = {}
+            if l.get("mode") is not None:
+                kw["mode"] = l["mode"]
+            layers.append(dg.layer(l["key"], **kw))
     kw = view_kwargs(case["view"], case["mesh"])
-    kw["direction"] = direction_arg(case["direction"])
+    kw["direction"] = state["direction"] if state is not None and "direction" in state else direction_arg(case["direction"])
+    if state is not None:
+        state["layers"], state["direction"] = layers, kw["direction"]
     kw["plot"] = False
     if case.get("call_mode") is not None:
         kw["mode"] = case["call_mode"]
@@ -341,12 +370,16 @@ def execute(case, stats):
     runs = []
     dry_sim = None
     kw = None
+    state = None
+    if case.get("prior"):
+        state = prior_call(case, dg)
+        stats.inc("probe.earlier_map_with_the_same_layer_objects")
     for phase in ("t1", "sched"):
         def factory():
             return make_sim(case, None if phase == "t1" else dry_sim)
 
         try:
-            plot, calls, kw = call_map(case, dg, factory)
+            plot, calls, kw = call_map(case, dg, factory, state=state)
         except KernelError as e:
             V("kernel-exception", phase, {"error": str(e)[:300]})
             return res
@@ -450,7 +483,7 @@ def measure(case):
     npix = res * res if isinstance(res, int) else res.get("x", 256) * res.get("y", 256)
     return (m["maxcells"], m["levelmax"], npix, len(case["layers"]), case["sched"]["T"], m["ndim"], int(case["direction"]["kind"] in ("vec", "basis")),
             int(v["origin"] is not None), int(v["dy"] is not None), int(m["holes"] > 0) + int(bool(m.get("hole_box"))),
-            int(m["unit"] != "cm") + int(v["window_unit"] != m["unit"]) + int(v["origin_unit"] != m["unit"]) + int(m["scale"] != 1.0), sw)
+            int(m["unit"] != "cm") + int(v["window_unit"] != m["unit"]) + int(v["origin_unit"] != m["unit"]) + int(m["scale"] != 1.0), int(bool(case.get("prior"))), sw)
 
 
 def canonical(case, viol):
@@ -464,6 +497,8 @@ def canonical(case, viol):
 
 def reductions(case, viol):
     m, v = case["mesh"], case["view"]
+    if case.get("prior"):
+        yield dict(case, prior=False)
     for mc in (1, 8, 20, m["maxcells"] // 2):
         if mc < m["maxcells"]:
             yield dict(case, mesh=dict(m, maxcells=mc))
